@@ -437,6 +437,11 @@ func (ipfs *Connector) pinProgress(ctx context.Context, hash cid.Cid, maxDepth a
 				return ctx.Err()
 			default:
 				if err == io.EOF {
+					// go-ipfs reports errors that happen once
+					// streaming started in a trailer.
+					if msg := res.Trailer.Get("X-Stream-Error"); msg != "" {
+						return errors.New(msg)
+					}
 					return nil // clean exit. Pinned!
 				}
 				return err // error decoding
